@@ -99,7 +99,11 @@ class ClientConfigurationEndpoint:
         # the value of this field MUST match the currently issued client
         # secret for that client.
         if "client_secret" in request.data:
-            if not client.check_client_secret(request.data["client_secret"]):
+            client_secret = request.data["client_secret"]
+            # a secret is text: a JSON value of another type matches nothing
+            if not isinstance(client_secret, str) or not client.check_client_secret(
+                client_secret
+            ):
                 raise InvalidRequestError()
 
         client_metadata = self.extract_client_metadata(request)
